@@ -9,6 +9,9 @@ use std::sync::{Arc, Condvar as StdCondvar, Mutex as StdMutex, MutexGuard as Std
 
 pub type Tid = usize;
 
+/// PCT fairness bound (scheduling points one thread may run while others are runnable).
+const FAIR_RUN: u64 = 4_000;
+
 /// xoshiro256** seeded through splitmix64.
 #[derive(Clone, Debug)]
 pub struct Rng {
@@ -140,6 +143,7 @@ struct Slot {
     prio: i64,
     wait_seq: u64,
     points: u64,
+    stack: (usize, usize),
 }
 
 #[derive(Clone, Debug)]
@@ -206,6 +210,7 @@ pub enum Abort {
     TimeBudget,
     ReplayDiverged,
     Internal,
+    ForeignStack,
 }
 
 pub type AbortHandler = fn(Abort, String) -> !;
@@ -240,6 +245,7 @@ struct State {
     rr_left: u32,
     pct_changes: Vec<u64>,
     pct_low: i64,
+    pct_run: u64,
     io_epoch: u64,
     abort: Option<AbortHandler>,
     idle_hook: Option<fn()>,
@@ -277,6 +283,7 @@ fn sim() -> &'static StdMutex<State> {
             rr_left: 0,
             pct_changes: Vec::new(),
             pct_low: -1,
+            pct_run: 0,
             io_epoch: 0,
             abort: None,
             idle_hook: None,
@@ -411,10 +418,18 @@ impl State {
             },
             Strategy::Pct { .. } => {
                 if let Some(c) = cur {
-                    if self.pct_changes.contains(&self.points) {
+                    // fairness: no real scheduler starves a runnable thread forever; a thread that
+                    // has run FAIR_RUN points in a row while others were runnable is demoted
+                    // (needed because the code under test spin-waits)
+                    self.pct_run += 1;
+                    let starving = runnable.len() > 1 && self.pct_run > FAIR_RUN;
+                    if self.pct_changes.contains(&self.points) || starving {
                         self.pct_low -= 1;
                         self.threads[c].prio = self.pct_low;
+                        self.pct_run = 0;
                     }
+                } else {
+                    self.pct_run = 0;
                 }
                 let mut best = runnable[0];
                 for t in &runnable {
@@ -466,6 +481,17 @@ pub fn point(label: &'static str) {
         return;
     }
     debug_assert_eq!(st.current, tid, "point() by a thread without the token");
+    {
+        // memory-safety tripwire: a thread must never execute on another thread's OS stack (that is
+        // what a context switch through a stale coroutine/suspender pointer does)
+        let sp = std::ptr::from_ref(&st) as usize;
+        for (i, t) in st.threads.iter().enumerate() {
+            if i != tid && t.stack.1 != 0 && sp >= t.stack.0 && sp < t.stack.1 && !matches!(t.st, TState::Finished) {
+                let msg = format!("thread t{tid} ({}) is executing on the OS stack of thread t{i} ({}) at {label}", st.threads[tid].name, t.name);
+                do_abort(st, Abort::ForeignStack, msg);
+            }
+        }
+    }
     st.seq += 1;
     st.points += 1;
     st.threads[tid].points += 1;
@@ -781,6 +807,7 @@ pub(crate) fn register_thread(name: String) -> Spawned {
         prio,
         wait_seq: 0,
         points: 0,
+        stack: (0, 0),
     });
     Spawned {
         tid: st.threads.len() - 1,
@@ -788,11 +815,29 @@ pub(crate) fn register_thread(name: String) -> Spawned {
 }
 
 /// First thing a new simulated thread does on its own OS thread.
+fn own_stack_range() -> (usize, usize) {
+    unsafe {
+        let mut attr: libc::pthread_attr_t = std::mem::zeroed();
+        if libc::pthread_getattr_np(libc::pthread_self(), &raw mut attr) != 0 {
+            return (0, 0);
+        }
+        let mut addr: *mut libc::c_void = std::ptr::null_mut();
+        let mut size: libc::size_t = 0;
+        let r = libc::pthread_attr_getstack(&raw const attr, &raw mut addr, &raw mut size);
+        _ = libc::pthread_attr_destroy(&raw mut attr);
+        if r != 0 {
+            return (0, 0);
+        }
+        (addr as usize, addr as usize + size)
+    }
+}
+
 pub(crate) fn thread_start(tid: Tid) {
     TID.with(|t| t.set(Some(tid)));
     let me = {
         let mut st = lock();
         st.threads[tid].pthread = unsafe { libc::pthread_self() } as u64;
+        st.threads[tid].stack = own_stack_range();
         st.threads[tid].parker.clone()
     };
     park_until_token(tid, &me);
@@ -996,6 +1041,7 @@ pub fn start(cfg: Config) {
     st.rr_left = 0;
     st.pct_changes.clear();
     st.pct_low = -1;
+    st.pct_run = 0;
     st.io_epoch = 0;
     let prio = (st.rng_sched.next_u64() >> 2) as i64;
     st.threads.push(Slot {
@@ -1008,6 +1054,7 @@ pub fn start(cfg: Config) {
         prio,
         wait_seq: 0,
         points: 0,
+        stack: (0, 0),
     });
     if let Strategy::Pct { depth, est_len } = cfg.strategy {
         let mut v = Vec::new();
@@ -1025,6 +1072,7 @@ pub fn start(cfg: Config) {
     drop(st);
     _ = aux_drain();
     aux_enable(false);
+    OVERLAP.lock().unwrap_or_else(|e| e.into_inner()).clear();
     TID.with(|t| t.set(Some(0)));
 }
 
@@ -1094,4 +1142,58 @@ pub fn thread_points(tid: Tid) -> u64 {
 
 pub fn my_points() -> u64 {
     current_tid().map_or(0, thread_points)
+}
+
+// ---------------------------------------------------------------------------------------------
+// root-cause probe: two threads inside a single-owner operation at the same time
+
+static OVERLAP: StdMutex<Vec<(usize, Tid)>> = StdMutex::new(Vec::new());
+
+/// Marks "thread T is inside the single-owner operation on object `addr`"; if another thread is
+/// already inside when one enters, the named counter is incremented (a contract breach that the
+/// real, uninstrumented code would hit as a data race).
+pub struct OverlapGuard {
+    addr: usize,
+    tid: Tid,
+}
+
+impl OverlapGuard {
+    pub fn enter(addr: usize, counter: &'static str) -> Self {
+        let tid = current_tid().unwrap_or(usize::MAX);
+        let mut g = OVERLAP.lock().unwrap_or_else(|e| e.into_inner());
+        if g.iter().any(|(a, t)| *a == addr && *t != tid) {
+            drop(g);
+            count(counter);
+            g = OVERLAP.lock().unwrap_or_else(|e| e.into_inner());
+        }
+        g.push((addr, tid));
+        OverlapGuard { addr, tid }
+    }
+}
+
+impl Drop for OverlapGuard {
+    fn drop(&mut self) {
+        let mut g = OVERLAP.lock().unwrap_or_else(|e| e.into_inner());
+        if let Some(p) = g.iter().position(|(a, t)| *a == self.addr && *t == self.tid) {
+            _ = g.swap_remove(p);
+        }
+    }
+}
+
+// ---------------------------------------------------------------------------------------------
+// unhandled synchronous fault (SIGSEGV/SIGBUS that the code under test did not recover from)
+
+static FATAL_HOOK: StdMutex<Option<fn(i32, usize, usize) -> !>> = StdMutex::new(None);
+
+pub fn set_fatal_signal_hook(h: fn(i32, usize, usize) -> !) {
+    *FATAL_HOOK.lock().unwrap_or_else(|e| e.into_inner()) = Some(h);
+}
+
+/// Called from the SIGSEGV/SIGBUS wrapper when the inner handler left the faulting context as is.
+pub fn fatal_signal(sig: i32, pc: usize, addr: usize) -> ! {
+    let h = FATAL_HOOK.try_lock().ok().and_then(|g| *g);
+    if let Some(h) = h {
+        h(sig, pc, addr)
+    }
+    unsafe { libc::_exit(139) }
 }
